@@ -21,7 +21,7 @@ def write_mc(tag, n, wakers, max_wakes, max_owner, sequential, counts, keeps, wd
     b = lambda x: "TRUE" if x else "FALSE"
     with open(os.path.join(wd, mod + ".cfg"), "w") as f:
         f.write(f"SPECIFICATION Spec\nCONSTANTS\n  N = {n}\n  Wakers <- c_Wakers\n  MaxWakes = {max_wakes}\n"
-                f"  MaxOwner = {max_owner}\n  Sequential = {b(sequential)}\n  Emit = {b(sequential)}\n"
+                f"  MaxOwner = {max_owner}\n  Sequential = {b(sequential)}\n  KeepHist = {b(sequential)}\n  Emit = {b(sequential)}\n"
                 f"  Counts <- c_Counts\n  Keeps <- c_Keeps\nCHECK_DEADLOCK FALSE\nINVARIANTS\n  "
                 + " ".join(INVARIANTS + ["EmitHist"]) + "\n")
     return mod, mod + ".cfg"
@@ -47,7 +47,111 @@ def harness(inp, wd, tag):
     return lines, p.returncode, p.stderr[-400:]
 
 
-def taskset_part(chk, thorough, wd):
+def validate_conc(n, wakers, runs, wd, tag):
+    """Real-thread executions against TaskSet_Trace.tla (same loop as the other trace validations)."""
+    from tla import confirm_rejection
+    mod = f"Trts_{tag}"
+    with open(os.path.join(wd, mod + ".tla"), "w") as f:
+        f.write(f"---- MODULE {mod} ----\nEXTENDS TaskSet_Trace\nc_Wakers == {to_tla(set(wakers))}\n"
+                f"c_Counts == {{0, 1, 2}}\nc_Keeps == 0..{n}\n====\n")
+    with open(os.path.join(wd, mod + ".cfg"), "w") as f:
+        f.write(f"SPECIFICATION TraceSpec\nCONSTANTS\n  N = {n}\n  Wakers <- c_Wakers\n  MaxWakes = 1000\n  MaxOwner = 1000\n"
+                "  Sequential = FALSE\n  KeepHist = TRUE\n  Counts <- c_Counts\n  Keeps <- c_Keeps\n"
+                "CONSTRAINT Track\nPOSTCONDITION TraceAccepted\nCHECK_DEADLOCK FALSE\nINVARIANTS\n  "
+                + " ".join(INVARIANTS) + "\n")
+    stats = dict(states=0, transitions=0, wall=0.0, events=0)
+    rejections, accepted = [], 0
+    remaining = list(runs)
+    rnd = 0
+    while remaining and len(rejections) < 3:
+        rnd += 1
+        path = os.path.join(wd, f"{tag}_v{rnd}.ndjson")
+        with open(path, "w") as f:
+            for r in remaining:
+                for e in r:
+                    f.write(json.dumps(e) + "\n")
+        res = run_tlc(mod, mod + ".cfg", wd, workers=1, timeout=1800, dfs=True, heap="4g", env_extra={"TRACE": path},
+                      tags=("TRACE_REJECTED",), metaname=tag)
+        stats["states"] += res.distinct
+        stats["transitions"] += res.generated
+        stats["wall"] += res.wall
+        os.remove(path)
+        if res.ok:
+            accepted += len(remaining)
+            stats["events"] += sum(len(r) for r in remaining)
+            break
+        if res.violation and res.violation.startswith("Invariant"):
+            ls = [ln for ln in res.trace if ln.startswith("/\\ l = ")]
+            nn = int(ls[-1].split("=")[1]) - 2 if ls else 0
+            reason = "invariant:" + res.violation.split()[1]
+        elif res.printed:
+            nn = int(res.printed[-1].split(",")[1].strip())
+            reason = "unmatched"
+        else:
+            raise ToolError("unexpected TLC outcome: %s\n%s" % (res.violation, res.output[-2000:]))
+        pos = 0
+        for i, r in enumerate(remaining):
+            if nn < pos + len(r):
+                accepted += i
+                k = nn - pos
+                remaining = remaining[i + 1:]
+                if confirm_rejection(mod, mod + ".cfg", wd, tag, r, res, heap="4g"):
+                    rejections.append((r, k, r[k] if k < len(r) else None, reason))
+                else:
+                    accepted += 1
+                break
+            pos += len(r)
+        else:
+            raise ToolError("rejection index outside the trace")
+    return accepted, rejections, stats
+
+
+def split_resets(lines):
+    runs = []
+    for e in lines:
+        if e.get("ev") == "reset":
+            runs.append([e])
+        elif runs:
+            runs[-1].append(e)
+    return runs
+
+
+def conc_part(chk, rng, thorough, wd):
+    """Waker threads hammering a real TaskSet while the owner takes, inspects and discards."""
+    nprog, rep = (30, 60) if thorough else (8, 25)
+    for n, nw in (((2, 2), (3, 3), (3, 2)) if thorough else ((2, 2), (3, 3))):
+        progs = []
+        for _ in range(nprog):
+            wk = [[rng.randrange(n) for _ in range(rng.randint(2, 5))] for _ in range(nw)]
+            ow = []
+            for _ in range(rng.randint(3, 6)):
+                r = rng.random()
+                if r < 0.7:
+                    ow.append(dict(op="take", arg=rng.choice((0, 1, 1, 2)), keep=rng.choice((0, 1, n, n))))
+                elif r < 0.85:
+                    ow.append(dict(op="has", arg=0, keep=0))
+                else:
+                    ow.append(dict(op="discard", arg=0, keep=0))
+            ow += [dict(op="take", arg=0, keep=n), dict(op="has", arg=0, keep=0)]
+            progs.append(dict(wakers=wk, owner=ow))
+        lines, rc, err = harness(dict(n=n, programs=progs, repeat=rep), wd, f"tsconc_{n}_{nw}")
+        if rc != 0:
+            chk.violation(f"the harness process died while threads hammered a TaskSet: {rc} {err}",
+                          dict(engine="taskset", n=n), signature=f"tsconccrash:{n}:{nw}")
+        runs = [r for r in split_resets(lines) if r and r[-1].get("ev") == "oe"]
+        acc, rej, st = validate_conc(n, [f"w{i + 1}" for i in range(nw)], runs, wd, f"tsconc_{n}_{nw}")
+        chk.add_trace_stats(f"task set, real threads [{n} tasks, {nw} waker threads]", acc + len(rej), st)
+        chk.evaluations += len(runs)
+        for (r, k, ev, reason) in rej:
+            chk.violation(f"execution of real threads on a TaskSet ({n} tasks, {nw} waker threads) is not a behaviour of "
+                          f"TaskSet.tla: {reason} at event {k}: {json.dumps(ev)}",
+                          dict(engine="taskset", n=n, trace=r[:k + 1]),
+                          signature=f"tsconc:{n}:{nw}:{reason}:{json.dumps(ev)}")
+        if runs:
+            chk.sample(dict(kind="task set, real threads", tasks=n, trace=runs[len(runs) // 2][:20]))
+
+
+def taskset_part(chk, thorough, wd, rng=None):
     # 1. every interleaving of the atomic steps
     for (n, wk, mw, mo) in (((2, ["w1", "w2"], 2, 2), (3, ["w1", "w2"], 2, 2), (2, ["w1", "w2", "w3"], 1, 3)) if thorough
                             else ((2, ["w1", "w2"], 2, 2),)):
@@ -99,6 +203,9 @@ def taskset_part(chk, thorough, wd):
         chk.evaluations += len(beh)
         if beh:
             chk.sample(dict(kind="task set history", tasks=n, history=beh[len(beh) // 2]))
+    # 3. real threads
+    import random
+    conc_part(chk, rng or random.Random(chk.seed), thorough, wd)
 
 
 if __name__ == "__main__":
